@@ -597,7 +597,7 @@ class FuncEmit:
                     s.w('%s = vr_coro_alloc(%d);' % (r, sz * n))
                 else:
                     s.code.insert(0, '  %s __attribute__((aligned(%d)));\n' % (E.memtype_decl(Ty('array', max(n, 1), t), r + '_mem'), max(align, 1)))
-                    s.w('%s = (char*)%s_mem;' % (r, r))
+                    s.w('%s = (char*)%s_mem; VR_POISON(%s_mem, sizeof %s_mem);' % (r, r, r, r))
             else:
                 # keep a sizeof() in the size expression: CBMC types the object from it (T[n] instead of char[])
                 et = E.L.resolve(t); mult = 1
